@@ -230,6 +230,12 @@ def run_programs(workdir, programs, shards=16):
                     # Proofs/Apply3Sem.v ternary_faithful_eq: a model/extraction/driver bug, a hard error for EVERY
                     # property (also for those whose judge does not look at the model's result of the step)
                     raise RuntimeError("ternary models disagree (model-internal cross-check) on step %s: %s" % (t[0], sx_str(t[1])[:600]))
+                if m[1] == "BAD:count-models-disagree":
+                    # driver/ops_count.ml `counted`: on a small operand the memoised counting functions (Model/CountFast.v), the
+                    # dispatching `_auto` functions and the un-memoised reference recursions (Model/Count.v) differ, or wfb_fast
+                    # differs from wfb, contradicting Proofs/CountFast.v (*_fast_eq, *_auto_eq, wfb_fast_eq): a
+                    # model/extraction/driver bug, a hard error for EVERY property
+                    raise RuntimeError("counting models disagree (model-internal cross-check) on step %s: %s" % (t[0], sx_str(t[1])[:600]))
                 out.append((t[0], t[1], t[2], m[1], m[2]))
     return out
 
